@@ -131,6 +131,9 @@ TRet ==
      /\ answered' = IF pend[g].st = "called" THEN answered \cup {TLog[pend[g].line].fn} ELSE answered
   /\ UNCHANGED <<running, execs, ncalls, fnsOf, starts, rlc, fnExec>>
 
+\* a call without a work function panics and leaves no per-key state (the quiescent / final lines compare the key count)
+TBadCall == IsEv("badcall") /\ Consume /\ Cur.panicked /\ UNCHANGED <<vars, pend>>
+
 TRelease == IsEv("release") /\ Consume /\ UNCHANGED <<vars, pend>>
 
 KeyRunning(k) == Get(running, k, 0) # 0
@@ -154,7 +157,7 @@ TFinal ==
   /\ \A k \in DOMAIN running : running[k] = 0
   /\ UNCHANGED <<vars, pend>>
 
-TVNext == TReset \/ TRelease \/ TCall \/ TRet \/ TWStart \/ TWLayer \/ TRlCancel \/ TWResolved \/ TWEnd \/ TQuiescent \/ TFinal
+TVNext == TReset \/ TBadCall \/ TRelease \/ TCall \/ TRet \/ TWStart \/ TWLayer \/ TRlCancel \/ TWResolved \/ TWEnd \/ TQuiescent \/ TFinal
 TVSpec == TVInit /\ [][TVNext]_tvars
 Mark ==
   /\ IF l - 1 > TLCGet(1) THEN TLCSet(1, l - 1) ELSE TRUE
